@@ -15,6 +15,7 @@
 package etcd
 
 import (
+	"bytes"
 	"context"
 	"fmt"
 	"time"
@@ -164,7 +165,8 @@ func isCreate(txn *etcdserverpb.TxnRequest) *etcdserverpb.PutRequest {
 		txn.Compare[0].GetModRevision() == 0 &&
 		len(txn.Failure) == 0 &&
 		len(txn.Success) == 1 &&
-		txn.Success[0].GetRequestPut() != nil {
+		txn.Success[0].GetRequestPut() != nil &&
+		bytes.Equal(txn.Success[0].GetRequestPut().Key, txn.Compare[0].Key) {
 		return txn.Success[0].GetRequestPut()
 	}
 	return nil
@@ -175,7 +177,9 @@ func isDelete(txn *etcdserverpb.TxnRequest) (int64, []byte, bool) {
 		len(txn.Failure) == 0 &&
 		len(txn.Success) == 2 &&
 		txn.Success[0].GetRequestRange() != nil &&
-		txn.Success[1].GetRequestDeleteRange() != nil {
+		txn.Success[1].GetRequestDeleteRange() != nil &&
+		isSingleKey(txn.Success[0].GetRequestRange(), txn.Success[1].GetRequestDeleteRange().Key) &&
+		len(txn.Success[1].GetRequestDeleteRange().RangeEnd) == 0 {
 		rng := txn.Success[1].GetRequestDeleteRange()
 		return 0, rng.Key, true
 	}
@@ -184,8 +188,11 @@ func isDelete(txn *etcdserverpb.TxnRequest) (int64, []byte, bool) {
 		txn.Compare[0].Result == etcdserverpb.Compare_EQUAL &&
 		len(txn.Failure) == 1 &&
 		txn.Failure[0].GetRequestRange() != nil &&
+		isSingleKey(txn.Failure[0].GetRequestRange(), txn.Compare[0].Key) &&
 		len(txn.Success) == 1 &&
-		txn.Success[0].GetRequestDeleteRange() != nil {
+		txn.Success[0].GetRequestDeleteRange() != nil &&
+		bytes.Equal(txn.Success[0].GetRequestDeleteRange().Key, txn.Compare[0].Key) &&
+		len(txn.Success[0].GetRequestDeleteRange().RangeEnd) == 0 {
 		return txn.Compare[0].GetModRevision(), txn.Success[0].GetRequestDeleteRange().Key, true
 	}
 	return 0, nil, false
@@ -197,8 +204,10 @@ func isUpdate(txn *etcdserverpb.TxnRequest) (int64, []byte, []byte, int64, bool)
 		txn.Compare[0].Result == etcdserverpb.Compare_EQUAL &&
 		len(txn.Success) == 1 &&
 		txn.Success[0].GetRequestPut() != nil &&
+		isPlainPut(txn.Success[0].GetRequestPut(), txn.Compare[0].Key) &&
 		len(txn.Failure) == 1 &&
-		txn.Failure[0].GetRequestRange() != nil {
+		txn.Failure[0].GetRequestRange() != nil &&
+		isSingleKey(txn.Failure[0].GetRequestRange(), txn.Compare[0].Key) {
 		return txn.Compare[0].GetModRevision(),
 			txn.Compare[0].Key,
 			txn.Success[0].GetRequestPut().Value,
@@ -206,6 +215,16 @@ func isUpdate(txn *etcdserverpb.TxnRequest) (int64, []byte, []byte, int64, bool)
 			true
 	}
 	return 0, nil, nil, 0, false
+}
+
+// isSingleKey checks if the range request reads exactly the given key
+func isSingleKey(r *etcdserverpb.RangeRequest, key []byte) bool {
+	return bytes.Equal(r.Key, key) && len(r.RangeEnd) == 0
+}
+
+// isPlainPut checks if the put request writes the given key without any option that is not supported
+func isPlainPut(put *etcdserverpb.PutRequest, key []byte) bool {
+	return bytes.Equal(put.Key, key) && !put.PrevKv && !put.IgnoreValue && !put.IgnoreLease
 }
 
 func isCompact(txn *etcdserverpb.TxnRequest) bool {
